@@ -28,6 +28,7 @@ ObsOK ==
         /\ \A r \in Refs : pool'[r] = Ev.pool[r]
         /\ Has("kids") => \A r \in Refs : \A t \in T : kids'[r][t] = SeqRange(Ev.kids[r][t])
         /\ ~Has("foreign")
+        /\ ~Has("cancelmiss")   \* a lookup that was to be cancelled with a registry request pending did not ask the registry
 
 TraceInit == Init /\ l = 1 /\ TLCSet(1, 0)
 
